@@ -23,7 +23,7 @@ type hgLease struct {
 	msg int
 }
 
-// verif:harness props=C03,C04,C05 tprops=C13 tier=quick weight=500
+// verif:harness props=C03,C04,C05 tier=quick weight=500 tonly=C03
 // verif:bounds history of K=2 (thorough 3: 19 656 paths, ~11 min) operations on a SQLiteStore over the SQL model, starting from two messages enqueued through the real Enqueue (the second scheduled an arbitrary time ahead); before every operation the clock advances by an arbitrary amount (0..1h); operations: dequeue batch 1 / batch 2 with arbitrary TTL (the expired-lease sweep due on every dequeue), ack, nack with arbitrary delay, dead-letter, extend by an arbitrary amount, each with any lease id handed out so far or an unknown one; a ghost copy of the contract is compared with the table after every step
 func VerifC03SQLHistory() {
 	steps := 2
